@@ -22,7 +22,8 @@ AXDIR = {'x': (1, 0, 0), 'y': (0, 1, 0), 'z': (0, 0, 1), '110': (1, 1, 0), '111'
 MENU = (np.array([0.31, 0.77, 0.52]), np.array([0.93, 0.12, 0.64]))
 CONST_DRAW = np.array([0.31, 0.77, 0.52])
 QUICK_CUBE = ('generic', 'col_x', 'col_z')
-INPLACE = ((0, 1), (5, 0), (25, 2))       # (rotation index, translation index) applied to the construction object in place
+INPLACE = ((0, 1), (5, 0), (25, 2))
+INPLACE_BENT = ((0, 1), (5, 0), (25, 1))       # (rotation index, translation index) applied to the construction object in place
 
 
 _ROT = {}
@@ -76,7 +77,7 @@ class C02(Check):
             'non-trivial = the map was applied to a moved copy (not the identity motion) and every mapped atom compared')
     technique = ('exhaustive enumeration of references x targets x scales x 27 rotations x 3 translations on the real '
                  'ExchangeMap; differential oracle map(R ref + t) vs R map(ref) + t; owned np.random for small references')
-    level_text = ('every labelled graph with an anchor on 3..4 (quick) / 3..5 (thorough) atoms in 8 geometry classes, '
+    level_text = ('every labelled graph with an anchor on 3..4 (quick) / 3..5 (thorough) atoms in 9 geometry classes (incl. a chain bent by 1e-5 rad: nearly straight but fully determined), '
                   '1- and 2-atom references along 7 axis classes with all 9 combinations of a 3-entry draw menu at '
                   'construction and at call, 3 targets, 2 scale factors, the whole cube rotation group plus 3 generic '
                   'rotations, 3 translations (up to 135 nm), all executed on the real code; the 24 cube rotations are applied '
@@ -95,13 +96,13 @@ class C02(Check):
     def units(self, tier, seed):
         nmax = 5 if tier == 'thorough' else 4
         self.bounds = {'ref_atoms': [1, nmax], 'graphs': {n: len(xm.ref_graphs(n)) for n in range(3, nmax + 1)},
-                       'geometry_classes': list(xm.GEO), 'two_atom_axis_classes': list(AX2),
+                       'geometry_classes': list(xm.GEO) + list(xm.BENT), 'two_atom_axis_classes': list(AX2),
                        'targets': [list(t) for t in TARGETS], 'scale_factors': list(SCALES),
                        'rotations': 27, 'translations': 3,
                        'full_cube_group_on': {'n<=4': list(QUICK_CUBE) if tier != 'thorough' else list(xm.GEO), 'n=5': list(QUICK_CUBE)}, 'draw_menu': [3, 3], 'tolerance_nm': TOL}
         u = []
         for n in range(3, nmax + 1):
-            for geo in xm.GEO:
+            for geo in list(xm.GEO) + list(xm.BENT):
                 full = (tier == 'thorough' and n <= 4) or geo in QUICK_CUBE
                 mod = {3: 1, 4: 18 if full else 3, 5: 96 if full else 16}[n]
                 u += [{'k': 'g', 'n': n, 'geo': geo, 'mod': mod, 'r': r} for r in range(mod)]
@@ -146,6 +147,10 @@ class C02(Check):
         rots = rotations(seed)
         ris = [case['rot']] if 'rot' in case else ([0, 24, 25, 26] if case.get('rs') == 'gen' else range(len(rots)))
         tis = [case['tr']] if 'tr' in case else range(len(TRANSL))
+        if case.get('geo') in xm.BENT and 'tr' not in case:
+            # a frame fixed by a 2.5e-6 nm offset is conditioned ~1e-14/2.5e-6 per nm of translation: the 135 nm
+            # translation would turn coordinate rounding into > 1e-8 nm at a 5 nm target (not a defect)
+            tis = [0, 1]
         # the construction object itself moved IN PLACE (a map must not assume it still is where it was)
         if case.get('inplace'):
             yield case['rot'], case['tr'], rots[case['rot']], TRANSL[case['tr']], True
@@ -155,7 +160,7 @@ class C02(Check):
                 yield ri, ti, rots[ri], TRANSL[ti], False
         if 'inplace' in case:
             return
-        for ri, ti in INPLACE:
+        for ri, ti in (INPLACE_BENT if case.get('geo') in xm.BENT else INPLACE):
             yield ri, ti, rots[ri], TRANSL[ti], True
 
     def _general(self, case, R, seed):
@@ -173,6 +178,7 @@ class C02(Check):
         tgt.atoms_positions = tpos.copy()
         try:
             emap = ExchangeMap(ref, tgt, s)
+            tgt.atoms_positions = tpos[::-1] * 0.5 + np.array([3.0, 1.0, -2.0])    # the map keeps what it saw at construction
             base = emap(ref).atoms_positions
         except Exception as ex:
             R.case(case, nontrivial=False, outcome='exception', cls=f'n{n}/{geo}')
